@@ -113,16 +113,94 @@ theorem pivot_le_near (g : Goal) (iv : Interval) (n : Int) (hn : near g iv = som
   unfold computePivot sg at *
   cases hd : g.dir <;> simp only [hd] at hn hf ⊢ <;> simp only [hn, hf] <;> omega
 
-/-- meaning of the strict cut `op_strict(term, cast(b))` -/
-theorem strict_atom_holds {M : Type} (obj : Nat → M → Int) (m : M) (g : Goal) (gi : Nat) (d : Dom) (b : Int) :
-    (Constraint.atom ⟨gi, d, strictCmp g, b⟩).holds obj m = true ↔ sg g (obj gi m) < sg g b := by
-  unfold Constraint.holds Atom.holds strictCmp sg
+/-! ### bit-vector semantics of the atoms vs. the integer reading of the goal -/
+
+theorem ofInt_toNat_of_castOk (w : Nat) (b : Int) (h : castOk (.ubv w) b = true) :
+    ((BitVec.ofInt w b).toNat : Int) = b := by
+  simp only [castOk, decide_eq_true_eq] at h
+  rw [BitVec.toNat_ofInt]
+  have h2 : ((2 ^ w : Nat) : Int) = (2 : Int) ^ w := by simp
+  rw [h2, Int.emod_eq_of_lt h.1 h.2]
+  omega
+
+theorem two_pow_pred (w : Nat) (hw : 0 < w) : (2 : Int) ^ w = 2 * 2 ^ (w - 1) := by
+  obtain ⟨k, rfl⟩ : ∃ k, w = k + 1 := ⟨w - 1, by omega⟩
+  simp [Int.pow_succ]; omega
+
+theorem ofInt_toInt_of_castOk (w : Nat) (b : Int) (h : castOk (.sbv w) b = true) :
+    (BitVec.ofInt w b).toInt = b := by
+  simp only [castOk, decide_eq_true_eq] at h
+  obtain ⟨hw, h1, h2⟩ := h
+  rw [BitVec.toInt_ofInt]
+  have hp := two_pow_pred w hw
+  have hp' : ((2 ^ w : Nat) : Int) = (2 : Int) ^ w := by simp
+  apply Int.bmod_eq_of_le
+  · rw [hp', hp]; omega
+  · rw [hp', hp]; omega
+
+theorem cmp_evalU_eq {w : Nat} (c : Cmp) (x y : BitVec w) :
+    c.evalU x y = c.eval (x.toNat : Int) (y.toNat : Int) := by
+  cases c <;> simp [Cmp.evalU, Cmp.eval, BitVec.ult, BitVec.ule]
+
+theorem cmp_evalS_eq {w : Nat} (c : Cmp) (x y : BitVec w) :
+    c.evalS x y = c.eval x.toInt y.toInt := by
+  cases c <;> simp [Cmp.evalS, Cmp.eval, BitVec.slt, BitVec.sle]
+
+/-- The operator family recorded in the atom, evaluated with the SMT-LIB bit-vector operators on the
+    raw model value and the cast constant, decides the same as the integer comparison of the value
+    *read with the same family* (`toNat` for the unsigned, `toInt` for the signed operators) with the
+    bound -- provided the cast is representable.  This is where the signedness column of
+    `_comparation_functions` (BVULT/BV vs BVSLT/SBV) enters the proofs. -/
+theorem atom_holds_eq {M : Type} (val : Nat → M → Val) (m : M) (a : Atom)
+    (hty : ValTyped a.dom (val a.g m)) (hc : castOk a.dom a.bound = true) :
+    a.holds val m = a.cmp.eval (readObj a.dom (val a.g m)) a.bound := by
+  unfold Atom.holds
+  cases hd : a.dom <;> cases hv : val a.g m <;> rw [hd, hv] at hty <;> simp only [ValTyped] at hty
+  · simp [readObj]
+  · subst hty
+    rw [hd] at hc
+    simp only [dite_true, readObj, cmp_evalU_eq, ofInt_toNat_of_castOk _ _ hc]
+  · obtain ⟨rfl, _⟩ := hty
+    rw [hd] at hc
+    simp only [dite_true, readObj, cmp_evalS_eq, ofInt_toInt_of_castOk _ _ hc]
+
+/-- a well-sorted model value, read the way the goal reads it, is representable in the goal's sort -/
+theorem castOk_readObj (d : Dom) (v : Val) (h : ValTyped d v) : castOk d (readObj d v) = true := by
+  cases d <;> cases v <;> simp only [ValTyped] at h
+  · rfl
+  · subst h
+    rename_i b
+    simp only [castOk, readObj]
+    apply decide_eq_true
+    have := b.isLt
+    refine ⟨by omega, ?_⟩
+    exact_mod_cast this
+  · obtain ⟨rfl, hw⟩ := h
+    rename_i b
+    simp only [castOk, readObj]
+    apply decide_eq_true
+    have h1 := BitVec.le_toInt b
+    have h2 := @BitVec.toInt_lt _ b
+    exact ⟨hw, by omega, by omega⟩
+
+/-- meaning of the strict cut `op_strict(term, cast(b))`, for a model whose value of the goal term
+    is well-sorted, read by `obj` the way the goal reads it, and a representable bound -/
+theorem strict_atom_holds {M : Type} (val : Nat → M → Val) (obj : Nat → M → Int) (m : M) (g : Goal) (gi : Nat)
+    (b : Int) (hty : ValTyped g.dom (val gi m)) (hr : obj gi m = readObj g.dom (val gi m))
+    (hc : castOk g.dom b = true) :
+    (Constraint.atom ⟨gi, g.dom, strictCmp g, b⟩).holds val m = true ↔ sg g (obj gi m) < sg g b := by
+  simp only [Constraint.holds]
+  rw [atom_holds_eq val m _ hty hc, ← hr]
+  unfold strictCmp sg
   cases g.dir <;> simp [Cmp.eval] <;> omega
 
 /-- meaning of the non-strict `op_ns(term, val)` -/
-theorem ns_atom_holds {M : Type} (obj : Nat → M → Int) (m : M) (g : Goal) (gi : Nat) (d : Dom) (b : Int) :
-    (Atom.mk gi d (nsCmp g) b).holds obj m = true ↔ sg g (obj gi m) ≤ sg g b := by
-  unfold Atom.holds nsCmp sg
+theorem ns_atom_holds {M : Type} (val : Nat → M → Val) (obj : Nat → M → Int) (m : M) (g : Goal) (gi : Nat)
+    (b : Int) (hty : ValTyped g.dom (val gi m)) (hr : obj gi m = readObj g.dom (val gi m))
+    (hc : castOk g.dom b = true) :
+    (Atom.mk gi g.dom (nsCmp g) b).holds val m = true ↔ sg g (obj gi m) ≤ sg g b := by
+  rw [atom_holds_eq val m _ hty hc, ← hr]
+  unfold nsCmp sg
   cases g.dir <;> simp [Cmp.eval] <;> omega
 
 /-! ### representability of the bounds handed to `mgr.BV` / `mgr.SBV` -/
